@@ -113,11 +113,29 @@ def packet_execute(case, stats):
     stats.note({"len": len(plain), "aes": aes, "hmac": hk, "plain": plain}, len(faults) >= 256, classes=["len_mod16_%d" % (len(plain) % 16), "default_iv" if case["default_iv"] else "custom_iv"])
 
 
+# byte sequences that text-oriented code tends to treat specially; packets are binary and may start or end with any of them
+EDGES = [b"\r\n", b"\n", b"\r", b" ", b"\t", b"\x00", b"\x00\x00", b"\n\n", b"\r\n\r\n", b"==", b"=", b"\xff\xff", b"AAAA", b"0", b'"', b"%20", b"+", b"/"]
+
+
+def _edged(blob_strategy, min_len):
+    """Mostly arbitrary bytes; sometimes with an EDGES sequence as prefix and/or suffix (length preserved)."""
+
+    def put(t):
+        blob, pre, suf = t
+        if pre is not None and len(blob) >= max(min_len, len(pre)):
+            blob = pre + blob[len(pre) :]
+        if suf is not None and len(blob) >= max(min_len, len(suf)):
+            blob = blob[: len(blob) - len(suf)] + suf
+        return blob
+
+    opt = st.one_of(st.none(), st.none(), st.sampled_from(EDGES))
+    return st.tuples(blob_strategy, opt, opt).map(put)
+
+
 def framing_strategy():
-    pkt = st.tuples(st.integers(0, 5).map(lambda n: n * 16 + 16), st.binary(min_size=1, max_size=1))
     return st.fixed_dictionaries(
         {
-            "packets": st.lists(st.tuples(S.binary(0, 40), st.binary(min_size=16, max_size=16)), min_size=1, max_size=6),
+            "packets": st.lists(st.tuples(_edged(S.binary(0, 40), 0), _edged(st.binary(min_size=16, max_size=16), 16)), min_size=1, max_size=6),
             "real": st.booleans(),
             "aes": st.binary(min_size=16, max_size=16),
             "hmac": st.binary(min_size=16, max_size=16),
@@ -152,7 +170,8 @@ def framing_execute(case, stats):
         for g, (plain, _s) in zip(c2.ClientC2Data(output=stream).iter_encrypted_packets(), case["packets"]):
             out = lib(c2.decrypt_packet, g, case["aes"], case["hmac"])
             check(bytes(out).startswith(plain) and set(bytes(out)[len(plain) :]) <= {0x41}, "framing:decrypt", "framed packet decrypts to its plaintext")
-    stats.note(case, len(pkts) >= 2, classes=["packets%d" % min(len(pkts), 4), "real" if case["real"] else "synthetic"])
+    edge = any(ct.startswith(e) or sig.endswith(e) or ct.endswith(e) or sig.startswith(e) for ct, sig in pkts[:1] for e in EDGES)
+    stats.note(case, len(pkts) >= 2, classes=["packets%d" % min(len(pkts), 4), "real" if case["real"] else "synthetic", "first_packet_edge_bytes" if edge else "first_packet_plain"])
 
 
 def anchors():
@@ -202,7 +221,54 @@ def large_execute(case, stats):
     stats.note(case, True, classes=["large_packet"])
 
 
+def edge_enumerate(tier, shard, nshards):
+    from ..runner import shard_iter
+
+    two = [e for e in EDGES if len(e) <= 2]
+    return shard_iter(({"where": w, "edge": e, "n": n} for w in ("sig_end", "sig_start", "ct_start", "ct_end") for e in two for n in (0, 1)), shard, nshards)
+
+
+def edge_execute(case, stats):
+    """Real packets (found by search with the reference crypto) whose signature or ciphertext starts/ends with a
+    byte sequence that text-oriented code treats specially: both framings return them intact and they decrypt."""
+    import hashlib
+
+    from dissect.cobaltstrike import c2
+
+    e, where = case["edge"], case["where"]
+    seedb = hashlib.sha256(repr((where, e, case["n"])).encode()).digest()
+    aes, hk, iv = seedb[:16], seedb[16:32], b"abcdefghijklmnop"
+    found = None
+    for i in range(1 << 20):
+        plain = b"task-%d" % i + b"." * (case["n"] * 13)
+        ct = R.cbc_encrypt(R.pad_a(plain), aes, iv)
+        sig = R.sign(ct, hk)
+        hit = {"sig_end": sig.endswith(e), "sig_start": sig.startswith(e), "ct_start": ct.startswith(e), "ct_end": ct.endswith(e)}[where]
+        if hit:
+            found = (plain, ct, sig)
+            break
+    if found is None:
+        stats.discard()
+        return
+    plain, ct, sig = found
+    pkt = lib(c2.encrypt_packet, plain, aes, hk)
+    eq((bytes(pkt.ciphertext), bytes(pkt.signature)), (ct, sig), "encrypt:ciphertext", f"packet for {plain!r}")
+    ctx = f"packet with {where} == {e!r} (plaintext {plain!r}, aes {aes.hex()}, hmac {hk.hex()})"
+    got = lib(lambda: list(c2.ServerC2Data(output=ct + sig).iter_encrypted_packets()), what="ServerC2Data.iter_encrypted_packets")
+    eq([(bytes(g.ciphertext), bytes(g.signature)) for g in got], [(ct, sig)], "framing:server_split", "trailing-signature framing of " + ctx)
+    out = lib(c2.decrypt_packet, got[0], aes, hk)
+    eq(bytes(out), R.pad_a(plain), "framing:decrypt", "task data framing then decrypt of " + ctx)
+    other = lib(c2.encrypt_packet, b"second", aes, hk)
+    stream = pkt.dumps() + other.dumps() + pkt.dumps()
+    got = lib(lambda: list(c2.ClientC2Data(output=stream).iter_encrypted_packets()), what="ClientC2Data.iter_encrypted_packets")
+    eq([(bytes(g.ciphertext), bytes(g.signature)) for g in got], [(ct, sig), (bytes(other.ciphertext), bytes(other.signature)), (ct, sig)], "framing:client_split", "length-prefixed framing of " + ctx)
+    for g in (got[0], got[2]):
+        eq(bytes(lib(c2.decrypt_packet, g, aes, hk)), R.pad_a(plain), "framing:decrypt", "callback framing then decrypt of " + ctx)
+    stats.note(case, True, classes=[where, "edge_len%d" % len(e)])
+
+
 SUBS = [
+    Sub("edge_byte_packets", edge_execute, enumerate=edge_enumerate, exhaustive=True),
     Sub("large_packets", large_execute, enumerate=large_enumerate, exhaustive=True),
     Sub("packets_with_faults", packet_execute, strategy=packet_strategy, examples={"quick": 4800, "thorough": 48000}),
     Sub("framing", framing_execute, strategy=framing_strategy, examples={"quick": 3200, "thorough": 64000}),
